@@ -196,7 +196,7 @@ def run(ctx):
               "texts of 1-3 blocks generated from the deb-changelog(5) grammar: 4 package names, 4 versions, 1-3 of 5 distributions, "
               "6 urgencies x 3 urgency comments, 0-2 extra key=value pairs (also in non-alphabetical order), change lines with "
               "non-ASCII / '#' / ':' / tabs / trailing blanks, blank lines inside and between blocks, leading blank lines, authors "
-              "with empty or non-ASCII names, three date layouts; non-trivial = distinct texts", "%d texts" % rounds)
+              "with empty or non-ASCII names, three date layouts; parses into an object whose earlier parse failed or stopped early; edits of the Version objects handed out; non-trivial = distinct texts", "%d texts" % rounds)
     prev_text = None
     for _ in range(rounds):
         text, comps = gen_changelog(rng)
@@ -250,6 +250,59 @@ def run(ctx):
             if out2 != text or len(list(cl2)) != len(comps):
                 t.failed("a second parse_changelog() into the same object does not give the second text", first=prev_text,
                          text=text, out=out2)
+                break
+        # ... also when the earlier parse failed half way, or was told to stop before the first block
+        if rng.random() < 0.3:
+            first = rng.choice(["\n# comment\n\nnot a changelog\n", "\n\n  junk\n", "vim: set ft=changelog\nfoo (1.0) unstable\n"])
+            how = rng.choice(["strict parse that raises", "max_blocks=0"])
+            try:
+                cl3 = real.Changelog()
+                try:
+                    with warnings.catch_warnings():
+                        warnings.simplefilter("ignore")
+                        if how == "max_blocks=0":
+                            cl3.parse_changelog(first + text, max_blocks=0, strict=False)
+                        else:
+                            cl3.parse_changelog(first, strict=True)
+                except real.ChangelogParseError:
+                    pass
+                with warnings.catch_warnings():
+                    warnings.simplefilter("error")
+                    cl3.parse_changelog(text, strict=True)
+                out3 = str(cl3)
+            except Exception as e:
+                t.failed("strict parse into an object whose earlier parse failed / stopped early raised / warned: %r" % (e,),
+                         first=first, earlier=how, text=text)
+                break
+            t.case(key=("reuse-after-failure", first, how, text))
+            if out3 != text or len(list(cl3)) != len(comps):
+                t.failed("a parse into an object whose earlier parse failed / stopped early does not give the text", first=first,
+                         earlier=how, text=text, out=out3)
+                break
+        # what the blocks hand out is the caller's to change: editing a returned Version changes neither this changelog nor any
+        # other that is parsed later
+        if rng.random() < 0.3:
+            try:
+                with warnings.catch_warnings():
+                    warnings.simplefilter("error")
+                    cl4 = real.Changelog(text, strict=True)
+                    for b in cl4:
+                        v = b.version
+                        try:
+                            v.debian_revision = "99edited"
+                            v.epoch = "77"
+                        except ValueError:
+                            pass
+                    again = [str(b.version) for b in cl4]
+                    fresh = [str(b.version) for b in real.Changelog(text, strict=True)]
+                    out4 = str(cl4)
+            except Exception as e:
+                t.failed("editing the Version objects a changelog hands out raised %r" % (e,), text=text)
+                break
+            t.case(key=("edit-returned-version", text))
+            if again != [c["version"] for c in comps] or fresh != again or out4 != text:
+                t.failed("editing a Version object handed out by a block changed what the changelog (or a later one) exposes",
+                         text=text, versions_after=again, versions_of_a_fresh_parse=fresh, expected=[c["version"] for c in comps])
                 break
         prev_text = text
         if len(t.samples) < 2:
